@@ -193,6 +193,19 @@ pub fn c15(o: &Oracle, thorough: bool, seed: u64, rep: &Report) {
             hands += 1;
         }
     }
+    // hands that also hold non-card words (flagged cards, bit-flipped cards, halves of two cards, all ones,
+    // small integers ...): a non-card word contributes nothing to the set
+    for n in 2..=7usize {
+        for k in 0..(if thorough { 200_000 } else { 30_000 }) {
+            let w: Vec<u32> = (0..n).map(|i| super::cards::kind_word(o, if (k + i) % 3 == 0 { 0 } else { rng.below(super::cards::KINDS as u64) as usize }, &mut rng)).collect();
+            let e = w.iter().fold(0u64, |a, x| a | card_bit(o, *x));
+            if guarded(|| Hand::from_words(&w).to_binary()) != Ok(e) {
+                viol(rep, json!({"op":"bc_from_hand","words":hilo_arr(&w)}), json!({"res": limbs(e)}), "set built from a hand is not exactly the distinct real cards among its slots (non-card words contribute nothing)");
+            }
+            rep.eval(1);
+            hands += 1;
+        }
+    }
     // all two-slot hands over the 53 symbols exhaustively
     for a in 0..53 {
         for b in 0..53 {
@@ -204,7 +217,7 @@ pub fn c15(o: &Oracle, thorough: bool, seed: u64, rep: &Report) {
             hands += 1;
         }
     }
-    rep.space("hands of sizes 2..7 over {52 cards, blank} with repetition (all 53^2 two-slot hands, seeded otherwise)", false, hands);
+    rep.space("hands of sizes 2..7 over {52 cards, blank} with repetition (all 53^2 two-slot hands, seeded otherwise), and seeded hands that also hold non-card words of every near-miss kind", false, hands);
     // sets built from text: every token is folded in -- short texts, texts longer than a deck, repeats, junk
     let junk = ["", "A", "Zs", "1s", "A1", "10s", "XX", "AS2"];
     let seps = [" ", "\t", "  ", "\n", "\u{a0}", " \r\n"];
